@@ -66,8 +66,8 @@ pub trait Engine: Sync {
     }
     fn generate(&self, seed: u64, run: u64) -> Self::Case;
     fn execute(&self, case: &Self::Case, stats: &mut Stats, work: &Path) -> Option<Violation>;
-    /// candidate simplifications, most aggressive first
-    fn shrink(&self, case: &Self::Case) -> Vec<Self::Case>;
+    /// candidate simplifications, most aggressive first; `v` is the violation the current case produces
+    fn shrink(&self, case: &Self::Case, v: &Violation) -> Vec<Self::Case>;
     /// CPU seconds one run may consume before it is reported as non-terminating
     fn cpu_budget_s(&self) -> u64 {
         20
@@ -442,7 +442,7 @@ pub fn minimise<E: Engine>(e: &E, case: E::Case, v: Violation, work: &Path, budg
     MINIMISING.store(true, Ordering::SeqCst);
     let r = (|| loop {
         let mut progressed = false;
-        for cand in e.shrink(&cur) {
+        for cand in e.shrink(&cur, &curv) {
             if execs >= budget {
                 return (cur, curv, execs);
             }
@@ -537,6 +537,7 @@ pub fn run_batch<E: Engine>(e: &E, o: &Opts) -> Outcome {
     );
     let slots = make_slots(o.threads.max(1) + 1);
     spawn_watchdog(e, o, slots, known.clone());
+    let trace = std::env::var("VSIM_TRACE").is_ok();
     let chunk = e.chunk().max(1);
     let nchunks = (o.runs + chunk - 1) / chunk;
     let next = AtomicU64::new(0);
@@ -548,7 +549,7 @@ pub fn run_batch<E: Engine>(e: &E, o: &Opts) -> Outcome {
         for w in 0..o.threads.max(1) {
             let (next, total, digests, viols, samples) = (&next, &total, &digests, &viols, &samples);
             let work = o.work.join(format!("w{}", w));
-            s.spawn(move || {
+            std::thread::Builder::new().stack_size(512 << 20).spawn_scoped(s, move || {
                 let _ = std::fs::create_dir_all(&work);
                 let mut local = Stats::default();
                 let mut ldig = vec![];
@@ -563,6 +564,9 @@ pub fn run_batch<E: Engine>(e: &E, o: &Opts) -> Outcome {
                             samples.lock().unwrap().insert(run, e.sample(&case));
                         }
                         let mut st = Stats::default();
+                        if trace {
+                            eprintln!("trace: run {}", run);
+                        }
                         let v = guarded(e, &slots[w], run, &case, &mut st, &work);
                         ldig.push((run, st.run_digest));
                         local.merge(&st);
@@ -576,7 +580,7 @@ pub fn run_batch<E: Engine>(e: &E, o: &Opts) -> Outcome {
                 }
                 total.lock().unwrap().merge(&local);
                 digests.lock().unwrap().extend(ldig);
-            });
+            }).expect("spawn worker");
         }
     });
     let mut stats = total.into_inner().unwrap();
@@ -629,7 +633,8 @@ pub fn run_batch<E: Engine>(e: &E, o: &Opts) -> Outcome {
             continue;
         }
         exit = 1;
-        if unknown_reported >= 4 {
+        let max_report: usize = o.extra.get("max-report").and_then(|s| s.parse().ok()).unwrap_or(4);
+        if unknown_reported >= max_report {
             println!("(further unlisted violation class {} in {} runs not minimised)", sig, g.len());
             continue;
         }
